@@ -1268,6 +1268,12 @@ impl ProtocolState {
         if let Some(reverse_record) = self.operation_ack_timeouts.peek() {
             let record = &reverse_record.0;
             if record.timeout <= self.current_time {
+                // an operation in the middle of being written to the socket cannot be failed without
+                // truncating its packet on the wire; its timeout is applied once it is fully written
+                if Some(record.id) == self.current_operation {
+                    return None;
+                }
+
                 return Some(record.id);
             }
         }
@@ -1592,7 +1598,9 @@ impl ProtocolState {
         let mut next_service_time: Option<Instant> = fold_optional_timepoint_min(&None, &self.ping_timeout_timepoint);
 
         if let Some(ack_timeout) = self.operation_ack_timeouts.peek() {
-            next_service_time = fold_timepoint(&next_service_time, &ack_timeout.0.timeout);
+            if Some(ack_timeout.0.id) != self.current_operation {
+                next_service_time = fold_timepoint(&next_service_time, &ack_timeout.0.timeout);
+            }
         }
 
         if self.pending_write_completion {
@@ -1608,7 +1616,9 @@ impl ProtocolState {
         let mut next_service_time = self.get_next_service_timepoint_protocol_queue(ProtocolQueueServiceMode::HighPriorityOnly);
 
         if let Some(ack_timeout) = self.operation_ack_timeouts.peek() {
-            next_service_time = fold_timepoint(&next_service_time, &ack_timeout.0.timeout);
+            if Some(ack_timeout.0.id) != self.current_operation {
+                next_service_time = fold_timepoint(&next_service_time, &ack_timeout.0.timeout);
+            }
         }
 
         next_service_time
